@@ -37,7 +37,8 @@ def ty(t):
 EXPR = {
     "Add": "a + b", "Sub": "a - b", "Dot": "a.dot(&b)", "Lerp": "re::math::Lerp::lerp(&a, &b, 0.5)",
     "AffAdd": "re::math::space::Affine::add(&a, &b)", "AffSub": "re::math::space::Affine::sub(&a, &b)",
-    "ToHsl": "a.to_hsl()", "ToRgb": "a.to_rgb()",
+    "ToHsl": "a.to_hsl()", "ToRgb": "a.to_rgb()", "ToRgba": "a.to_rgba()", "ToColor3": "a.to_color3()",
+    "ToLinear": "a.to_linear()", "ToSrgb": "a.to_srgb()",
     "Apply": "a.apply(&b)", "ApplyPt": "a.apply_pt(&b)", "Compose": "a.compose(&b)", "Then": "a.then(&b)",
     "Inverse": "a.inverse()", "Transpose": "a.transpose()", "Determinant": "a.determinant()",
     "RotateX": "re::math::mat::rotate_x(a)", "Sin": "re::math::angle::Angle::sin(a)",
